@@ -19,6 +19,7 @@ LEVEL_NOTE = "Trusted: Lean kernel; engine model tied by correspondence; Python 
 def streams(rng, tier, seed):
     n = 200 if tier == "quick" else 5000
     progs = [ec.gen_flat(rng, sched=(i % 4 == 0)) for i in range(n)]
+    progs += [ec.gen_nscript(rng) for _ in range(n // 4)]       # native scheduler node held back by the readiness gate
     return [ec.engine_stream("engine-activation", progs)] + act.streams(rng, tier, seed)
 
 
